@@ -21,6 +21,9 @@
 //		coerce <ty | (alias ty)> <v>         (model + implementation) types.CoerceTo: instance test, one Optional removed, Array /
 //		       Hash / Struct element-wise, else new(type, value); out as newm
 //
+//		initinst <recv> <v>                  (model + implementation) px.IsInstance(recv, v), recv as for newm
+//		initasg (init ty v*) <ty>            (model + implementation) px.IsAssignable(Init[ty, v…], ty)
+//
 //	  @newc <spec> (args w*)               (implementation only) new on a constrained Struct/Hash/Tuple/Array receiver given as a
 //	       specification; the result is checked by px.IsInstance AND member by member against the spec (newc.go)
 //
@@ -983,6 +986,82 @@ func execCoerce(c px.Context, args []sx.Sexp) core.Result {
 	return res
 }
 
+// execInitInst: `initinst <recv> <v>` — px.IsInstance(recv, v) for the receivers of newm (Init[T, args…] above all): what
+// Init[T] accepts must be what T.new takes.  Direct predicate (class init-instance-new): when the answer is true,
+// Init[T,…].new(v) must not end in the argument error of the dispatch… which cannot be told from an ILLEGAL_ARGUMENTS raised
+// by a constructor body, so the predicate only demands "no fault" here; the equivalence itself is the theorem
+// C16_init_instance over the model, tied by comparing both ops (initinst and newm) with the implementation.
+func execInitInst(c px.Context, args []sx.Sexp) core.Result {
+	if len(args) != 2 {
+		return core.Result{Out: "bad-op", Pred: "FAIL harness-bad-op initinst"}
+	}
+	switch args[1].Tag() {
+	case "i", "s", "b", "u", "a", "d", "h", "f", "bin", "ts":
+	default:
+		return core.Result{Out: "bad-op", Pred: "FAIL harness-bad-op value"}
+	}
+	v := valOf(c, args[1])
+	var typ px.Type
+	var src string
+	if o := safely(func() { typ, _, src, _ = newmRecvOf(c, args[0]) }); o != "" || typ == nil {
+		return core.Result{Out: "bad-op", Pred: "FAIL harness-bad-op receiver does not parse: " + args[0].String()}
+	}
+	in := false
+	out := safely(func() { in = px.IsInstance(typ, v) })
+	res := core.Result{Pred: "ok", NonTrivial: true, Tags: []string{"initinst.recv=" + typ.Name()}}
+	switch {
+	case out == "":
+		res.Out = sx.B(in)
+		res.Tags = append(res.Tags, "initinst.out="+res.Out)
+		if it, ok := typ.(*types.InitType); ok && it.Type() != nil {
+			// consistency on the implementation: an instance of Init[T,…] can be handed to Init[T,…].new without a fault, and
+			// what is NOT an instance cannot be created from (new must raise an error)
+			var r px.Value
+			o2 := safely(func() { r = px.New(c, typ, v) })
+			switch {
+			case o2 != "" && !strings.HasPrefix(o2, "reported ") && o2 != "error":
+				res.Pred = fmt.Sprintf("FAIL new-fault-Init %s.new(%s) ended in %s", src, short(v), o2)
+			case !in && o2 == "":
+				res.Pred = fmt.Sprintf("FAIL init-instance-new %s is not an instance of %s but %s.new accepted it and returned %s", short(v), src, src, short(r))
+			}
+		}
+	case strings.HasPrefix(out, "reported "):
+		res.Out = out
+		res.Tags = append(res.Tags, "initinst.out="+strings.Replace(out, " ", ":", -1))
+	default:
+		res.Out = out
+		res.Pred = fmt.Sprintf("FAIL init-instance-fault IsInstance(%s, %s) ended in %s", src, short(v), out)
+	}
+	return res
+}
+
+// execInitAsg: `initasg (init ty v*) <ty>` — px.IsAssignable(Init[T, args…], type)
+func execInitAsg(c px.Context, args []sx.Sexp) core.Result {
+	if len(args) != 2 || args[0].Tag() != "init" || len(args[0].Args()) == 0 {
+		return core.Result{Out: "bad-op", Pred: "FAIL harness-bad-op initasg"}
+	}
+	var typ, other px.Type
+	if o := safely(func() {
+		typ, _, _, _ = newmRecvOf(c, args[0])
+		other, _ = newmTypeOf(c, args[1])
+	}); o != "" || typ == nil || other == nil {
+		return core.Result{Out: "bad-op", Pred: "FAIL harness-bad-op types do not parse"}
+	}
+	asg := false
+	out := safely(func() { asg = px.IsAssignable(typ, other) })
+	res := core.Result{Pred: "ok", NonTrivial: true, Tags: []string{"initasg"}}
+	switch {
+	case out == "":
+		res.Out = sx.B(asg)
+	case strings.HasPrefix(out, "reported "):
+		res.Out = out
+	default:
+		res.Out = out
+		res.Pred = "FAIL init-assignable-fault IsAssignable ended in " + out
+	}
+	return res
+}
+
 // alphaStr prints a value of the alphabet in op syntax; anything else as (? <type name>)
 func alphaStr(v px.Value) string {
 	switch v := v.(type) {
@@ -1052,6 +1131,10 @@ func exec(c px.Context, op string, args []sx.Sexp) (res core.Result) {
 		return execNewC(c, args)
 	case "coerce":
 		return execCoerce(c, args)
+	case "initinst":
+		return execInitInst(c, args)
+	case "initasg":
+		return execInitAsg(c, args)
 	}
 	return core.Result{Out: "bad-op", Pred: "FAIL harness-bad-op " + op}
 }
